@@ -130,6 +130,10 @@ Fixpoint spec_walk (t : list eblock) (hs ids txs : list N) (W : N) (last : optio
   match ops, rows with
   | [], [] => true
   | o :: ops', row :: rows' =>
+      (* a restart that ENLARGES the window is outside the property (pruned blocks cannot come
+         back, and what the store still holds at the old boundary is unspecified): from there on
+         only the model tie (check_case) applies *)
+      if negb (fst o =? 0) && (W <? snd o) then true else
       let '(W', last', live', stable) :=
         if fst o =? 0 then
           let b := nthN t (snd o) dummy in (W, Some (eh b), live_notify W b live, true)
